@@ -40,6 +40,20 @@ Extent(d, n, s, idx) == LET F == Footprint(d, n, s, idx) IN IF F = {} THEN 0 ELS
 (* the n * W cells of a result are pairwise distinct (otherwise "element k of the result" is not well defined) *)
 Disjoint(d, n, s, idx) == Cardinality(Footprint(d, n, s, idx)) = n * Width(d)
 
+(* ---- aliasing: the result may be the SAME object as an extension operand x when both are planar register triples, or both
+   are interleaved arrays with the result pointer equal to the operand pointer and every coefficient of element k of the
+   result at the position of the same coefficient of element k of x (same stride / index list).  Element k of the result
+   depends on element k of the operands only, so the expected result is Expected(...) on the values held BEFORE the call
+   (the scalar operations are alias-safe, C09; the prover uses the vector routines in place, e.g. Horner steps
+   mul33c_avx(acc, acc, challenge)).  Partial overlaps (result cells of element k on operand cells of another element) are
+   outside the property. *)
+RegKinds16 == {"regs", "regs3"}
+ArrKinds16 == {"contig", "stride", "index"}
+Aliasable(dc, dx) == dx.elem = "ext" /\ ((dc.kind \in RegKinds16 /\ dx.kind \in RegKinds16) \/ (dc.kind \in ArrKinds16 /\ dx.kind \in ArrKinds16))
+SameCells(dc, dx, n, sc, ic, sx, ix) ==
+  \A k \in 0..(n - 1), i \in 0..2 : Addr(dc, k, i, sc, ic) = Addr(dx, k, i, sx, ix)
+AliasModes(r) == {"none"} \cup {m \in {"a", "b"} : Aliasable(r.c, r[m])}
+
 (* ---- the scalar extension operation (C09): F[x]/(x^3 - x - 1), schoolbook product with x^3 = x + 1, x^4 = x^2 + x *)
 Emb(d, v) == IF d.elem = "base" THEN <<v[1], FZero, FZero>> ELSE v
 CAdd(u, v) == <<FA(u[1], v[1]), FA(u[2], v[2]), FA(u[3], v[3])>>
